@@ -52,7 +52,19 @@ def run(ses, rep):
                         "decoder: Lua 5.2+/Luau escapes; an unknown escape denotes the escaped character"]
     rep.outside += ["literals longer than the bound (the rewrite is local - max match length 2 - but no inductive argument is claimed)",
                     "interpolated strings (passed through untouched)", "numbers: see C04 number obligations"]
-    K, lit, paths, qdiscr, alts, qout, style, reach = build(ses, rep, N)
+    try:
+        K, lit, paths, qdiscr, alts, qout, style, reach = build(ses, rep, N)
+    except Inconclusive as e:
+        # the escape rewrite is no longer the regex + replacer closure this kernel encodes: nothing is decided symbolically; a battery of
+        # literals (ASCII escapes of every kind, both quotes, multi-byte characters) says whether values survive on the native build
+        hit = literal_battery()
+        if hit:
+            v, rec = hit
+            rep.add("rewrite/implementation-recognised", rep.violation({"obligation": "rewrite", "kind": "value"}, {"what": f"unrecognised rewrite ({e}); {v}", **rec}), v)
+        else:
+            rep.add("rewrite/implementation-recognised", "inconclusive", f"{e}; the literal battery shows no changed value")
+        numbers(ses, rep)
+        return
     ex = K.ex
     QI = {n: ex.enums.index("StringLiteralQuoteType", n) for n in ("Single", "Double", "Brackets")}
     SI = {n: ex.enums.index("QuoteStyle", n) for n in STYLES}
@@ -102,6 +114,24 @@ def run(ses, rep):
     for oid, m, kind in flagged:
         confirm(rep, oid, m, lit, qin, style, SI, kind)
     numbers(ses, rep)
+    long_strings(ses, rep)
+
+
+def long_strings(ses, rep):
+    """long-bracket strings: the text is kept, line breaks become the configured ones (C10's bounded-string kernel K3, restricted to string
+    literals; Lua reads every line-break spelling inside a long string as one newline, so the VALUE is unchanged exactly then)"""
+    from . import c10
+    N = 5 if rep.tier == "quick" else 7
+    for oid, what, kind, info in c10.k3(ses, rep, N):
+        if info.get("kind") != "StringLiteral":
+            continue
+        v, rec = c10.model_replay(kind, info)
+        if not v and kind == "text":
+            v, rec = c10.text_battery("StringLiteral")
+        if v:
+            rep.add(oid, rep.violation({"obligation": "long-string", "kind": kind}, {"what": what, "observed": v, **rec}), f"{what}; native: {v}")
+        else:
+            rep.add(oid, "inconclusive", f"{what}: not reproduced on the native build")
 
 
 def model_literal(m, lit, qin, style, SI):
@@ -137,6 +167,22 @@ def replay_literal(body, q, sname):
             return f"forced quote style not honoured ({syn})", {"source": src, "syntax": syn, "style": sname, "output": out}
         res.append(syn)
     return None, {"source": src, "accepted_by": res}
+
+
+LITERALS = ["plain", "it's", 'say "hi"', "both ' and \"", "\\'", '\\"', "a\\\\", "a\\\\'", "tab\\tnew\\n", "\\65\\066\\0671", "\\x41\\x7a", "\\u{48}\\u{20AC}", "\\z  x",
+            "C\\'est \u00e7a", "\u2192\\n", '\u65e5\u672c \\"\u8a9e\\"', "\u00e9\\\\", "na\u00efve 'q'", "\\a\\b\\f\\v\\r", "\\d\\e\\-", ""]
+
+
+def literal_battery():
+    for body in LITERALS:
+        for q in ("'", '"'):
+            if q in body.replace("\\" + q, ""):
+                continue            # not a valid literal for this quote
+            for sname in STYLES:
+                v, rec = replay_literal(body, q, sname)
+                if v:
+                    return v, rec
+    return None
 
 
 def py_decode51(body):
@@ -326,7 +372,12 @@ def replay(path):
             print(f"VIOLATION property=C04 replay={path}")
             return 1
         return 0
-    v, rec = replay_literal(r["body"], r["quote"], r["style"])
+    if "body" not in r:       # recorded by the literal battery / the long-string kernel: run those again
+        from . import c10
+        hit = literal_battery()
+        v = hit[0] if hit else c10.text_battery("StringLiteral")[0]
+    else:
+        v, rec = replay_literal(r["body"], r["quote"], r["style"])
     print(v or "property holds for the recorded literal")
     if v:
         print(f"VIOLATION property=C04 replay={path}")
